@@ -148,6 +148,12 @@ def _marker_guard(g):
     return None
 
 
+def _conditionally_reset(tr, attr):
+    """every store to registers.<attr> in the driver is guarded (none is unconditional)"""
+    ws = [e for e in tr.events if e.kind == 'SysWrite' and e.d['path'] == attr]
+    return bool(ws) and all(e.guards for e in ws)
+
+
 def check_return_not_advanced(run, repo):
     """C08-R (see module docstring)."""
     from .. import bookkeeping as bk
@@ -178,6 +184,15 @@ def check_return_not_advanced(run, repo):
             if in_it(g[0]) or g[0][0] == 'finally':
                 continue
             mg = _marker_guard(g)
+            if mg is not None and mg[0] not in flags and _conditionally_reset(tr, mg[0]):
+                ok = False
+                run.violation('C08-R', fi.relpath, fi.qualname, 'stale marker ' + mg[0],
+                              'it_advance() is suppressed by registers.%s, which execute_instruction resets only on some paths '
+                              '(not unconditionally before the opcode executes): set by an exception return executed outside an '
+                              'IT block it survives, and the first instruction of a later IT block is then not followed by '
+                              'ITAdvance()' % mg[0])
+                mine.append(None)
+                continue
             if mg is None or mg[0] not in flags:
                 raise AnalysisError('execute_instruction: it_advance() is guarded by `%s`, which is neither in_it_block() nor a '
                                     'per-instruction marker reset before the opcode executes' % fmt(g[0]))
@@ -195,7 +210,7 @@ def check_return_not_advanced(run, repo):
                           '(SUBS PC,LR / RFE / LDM^ / ERET as the last instruction of an IT block) that has just installed the '
                           'ITSTATE of the interrupted code from the SPSR: the restored IT state is advanced once too often, so '
                           '"returning restores it" fails for a return into the middle of an IT block')
-        markers.update(mine)
+        markers.update(m for m in mine if m is not None)
     fw = repo.method('Registers', 'cpsr_write_by_instr')
     params = [a.arg for a in fw.node.args.args if a.arg != 'self']
     if len(params) < 3:
